@@ -370,6 +370,7 @@ class Mod:
                 self.emit(f"    {a}: {self.T('ClassVar')}[int] = 0")
         if abstract:
             self.extra_imports.append("import abc")
+            self.final_classes.add(n)     # a subclass that stays abstract is a known parse-only class (witness abstract_subclass_parse_only)
         self.method_block(n, abstract=abstract)
         self.classes.append(n)
         self.public.append(n)
